@@ -654,7 +654,7 @@ theorem Fock.runCircuit_refines : âˆ€ (cs : List Cmd) (s : Fock D), FockInv s â†
 theorem fockRefines : Refines (fockOps D) (Fock.abs (D := D)) (FockInv (D := D)) where
   begin_inv := Fock.begin_inv
   begin_abs := Fock.begin_abs
-  run := fun _ cs b r' hb hr => Fock.runCircuit_refines cs b hb r' hr
+  run := fun _ cs b r' hb _ hr => Fock.runCircuit_refines cs b hb r' hr
   getModes := Fock.getModes_live
   state := Fock.stateNone_exact
 end FockRef
